@@ -17,10 +17,51 @@ GRAPHS = {
 }
 
 
+def _random_colouring(seed, nvars, ncol):
+    """connected random graph-colouring instance (possibly unsatisfiable) and its diameter"""
+    rng = _pyrandom.Random(seed * 7 + nvars * 131 + ncol)
+    names = ["x%d" % i for i in range(nvars)]
+    rng.shuffle(names)
+    edges = set()
+    for i in range(1, nvars):                     # random spanning tree
+        edges.add(tuple(sorted((names[i], names[rng.randrange(i)]))))
+    extra = rng.randrange(0, nvars + 1)
+    while extra > 0:
+        a, b = rng.sample(names, 2)
+        if tuple(sorted((a, b))) not in edges:
+            edges.add(tuple(sorted((a, b))))
+        extra -= 1
+    adj = {n: set() for n in names}
+    for a, b in edges:
+        adj[a].add(b)
+        adj[b].add(a)
+    diam = 0
+    for s0 in names:
+        dist, frontier = {s0: 0}, [s0]
+        while frontier:
+            nxt = []
+            for u in frontier:
+                for w in adj[u]:
+                    if w not in dist:
+                        dist[w] = dist[u] + 1
+                        nxt.append(w)
+            frontier = nxt
+        diam = max(diam, max(dist.values()))
+    cols = [10, 0, 5][:ncol]
+    spec = dict(vars={n: list(cols) for n in sorted(names)}, cons=[list(e) for e in sorted(edges)])
+    return spec, diam
+
+
 def h_dba(env):
     p = env.params
     algo = p.get("algo", "dba")
-    spec, diameter = GRAPHS[p["graph"]]
+    if p["graph"].startswith("rand"):
+        _, nv, nc = p["graph"].split("_")
+        seed0 = env.choice("inst_seed", list(range(p["inst_from"], p["inst_to"])))
+        spec, diameter = _random_colouring(seed0, int(nv), int(nc))
+        p = dict(p, inst_from=seed0, inst_to=seed0 + 1, coloring=True, extra_distance=0)
+    else:
+        spec, diameter = GRAPHS[p["graph"]]
     INF = 10000
     p = dict(p)
     p["inst_seed"] = env.choice("inst_seed", list(range(p["inst_from"], p["inst_to"])))
@@ -115,7 +156,7 @@ def _shapes(algo):
         n, batch = (40, 10) if tier == "quick" else (400, 25)
         if prop == "C10" and tier == "quick":
             n, batch = 10, 10
-        for g in ("pair", "chain3", "triangle", "chain4", "star_nary"):
+        for g in ("pair", "chain3", "triangle", "chain4", "star_nary", "rand_4_2", "rand_5_2", "rand_6_3", "rand_5_3"):
             for a in range(0, n, batch):
                 q.append(dict(algo=algo, graph=g, inst_from=a, inst_to=a + batch))
         return q
